@@ -21,6 +21,14 @@ static bool has_flag(int argc, char **argv, const char *name) { for (int i = 1; 
 static std::string one_line(const std::string &s) { std::string o = s; for (auto &c : o) if (c == '\n' || c == '\r') c = ' '; return o; }
 
 // ------------------------------------------------------------------------------------------------
+extern void (*g_progress_note)(uint64_t);
+static int g_curfd = -1; static uint64_t g_cur_idx = 0;
+static void note_progress(uint64_t sub) {
+    if (g_curfd < 0) return;
+    char b[64]; int n = snprintf(b, sizeof b, "%020llu %020llu\n", (unsigned long long) g_cur_idx, (unsigned long long) sub);
+    if (pwrite(g_curfd, b, (size_t) n, 0) < 0) {}
+}
+
 static int cmd_run(int argc, char **argv) {
     std::string prop = arg_of(argc, argv, "--prop", "");
     uint64_t seed = strtoull(arg_of(argc, argv, "--seed", "1").c_str(), 0, 10);
@@ -44,7 +52,7 @@ static int cmd_run(int argc, char **argv) {
     for (;; idx += stride) {
         if (max_runs && done >= max_runs) break;
         if ((done & 15) == 0 && now_s() - t0 > budget) break;   // the only real clock read: decides how many runs, never what a run does
-        if (curfd >= 0) { char b[32]; int n = snprintf(b, sizeof b, "%020llu\n", (unsigned long long) idx); if (pwrite(curfd, b, (size_t) n, 0) < 0) {} }
+        g_curfd = curfd; g_cur_idx = idx; g_progress_note = note_progress; note_progress(0);
         Plan p;
         uint64_t rs = prop == "C08" ? (mix64(seed, 8) & ~0xffffULL) + idx : run_seed(seed, prop, idx);
         if (!generate_plan(prop, rs, p)) { fprintf(stderr, "cannot generate plan\n"); return 2; }
@@ -60,6 +68,7 @@ static int cmd_run(int argc, char **argv) {
         if (v.violated) {
             agg.violations++;
             std::string path = out + strfmt("/viol-%llu.plan", (unsigned long long) idx);
+            if (prop == "C18") { long k = 0, sus = 0; if (sscanf(v.detail.c_str(), "k=%ld", &k) == 1) { sus = v.detail.find("(sustained)") != std::string::npos; p.alloc_fail_at = k; p.alloc_sustained = sus; } }
             write_file(path, p.serialize());
             printf("V idx=%llu seed=%llu oracle=%s hash=%016llx plan=%s detail=%s\n", (unsigned long long) idx, (unsigned long long) rs, v.oracle.c_str(),
                    (unsigned long long) v.hash, path.c_str(), one_line(v.detail).c_str());
@@ -87,6 +96,8 @@ static int cmd_emit(int argc, char **argv) {
     std::string out = arg_of(argc, argv, "--out", "");
     Plan p;
     if (!generate_plan(prop, prop == "C08" ? (mix64(seed, 8) & ~0xffffULL) + idx : run_seed(seed, prop, idx), p)) return 2;
+    uint64_t sub = strtoull(arg_of(argc, argv, "--sub", "0").c_str(), 0, 10);
+    if (sub && prop == "C18") { p.alloc_fail_at = (long) (sub & ((1ULL << 40) - 1)); p.alloc_sustained = (sub >> 40) & 1; }
     if (out.empty()) fputs(p.serialize().c_str(), stdout); else write_file(out, p.serialize());
     return 0;
 }
